@@ -574,7 +574,12 @@ func (op *ShellOperator) taskHandleHookRun(t task.Task) queue.TaskResult {
 			}
 		}
 		if shouldCombine {
-			combineResult := op.combineBindingContextForHook(op.TaskQueues, op.TaskQueues.GetByName(t.GetQueueName()), t, nil)
+			// A combined task is handled according to the head task's AllowFailure,
+			// so never merge in a task of a binding with a different allowFailure:
+			// its binding contexts would be dropped (or retried) by the wrong rule.
+			combineResult := op.combineBindingContextForHook(op.TaskQueues, op.TaskQueues.GetByName(t.GetQueueName()), t, func(tsk task.Task) bool {
+				return task_metadata.HookMetadataAccessor(tsk).AllowFailure != hookMeta.AllowFailure
+			})
 			if combineResult != nil {
 				hookMeta.BindingContext = combineResult.BindingContexts
 				// Extra monitor IDs can be returned if several Synchronization for Group are combined.
